@@ -156,7 +156,7 @@ struct Run {
   std::string err;
   std::vector<std::vector<std::pair<int, int>>> trace;   // per pass: (event, reported & subscribed)
   std::vector<char> dep;                                   // per pass: order-dependent
-  std::vector<char> ambiguous;                             // per pass: POLLERR on a descriptor with a read subscriber
+  std::vector<char> ambiguous;                             // per pass: POLLERR on a descriptor that has events
 
   Run(const Def &def, const char *eng, Flags &f) : d(def), engine(eng), fl(f) {}
   ~Run() { teardown(); }
@@ -441,7 +441,9 @@ struct Run {
       fds[i].passmask = mask_now(i); fds[i].targeted = false;
       int en = 0; for (auto &r : evs) if (r->alive && r->enabled && r->fdi == i) en |= r->mask;
       if (fds[i].w >= 0 && (en & fds[i].snap)) ++hot;
-      if (fds[i].snap_err && (fds[i].passmask & kR)) { ambiguous[k] = 1; fl.err_ambiguous = true; }
+      // error condition (write end of a pipe without reader): epoll reports it as EPOLLERR -> kExceptEvent, select as
+      // "readable and writable"; exception events are outside the statement, so the back-ends are not compared from here on
+      if (fds[i].snap_err && fds[i].passmask) { ambiguous[k] = 1; fl.err_ambiguous = true; }
     }
     if (hot >= 2) fl.multi_ready = true;
   }
